@@ -6,7 +6,10 @@ Coq on the same resolved histories (Corr/C07.v)."""
 import json
 import random
 
-from ..common import (Report, cbool, clist, cstr, decide, load_findings, run_case_shards, run_impl,
+import re
+from pathlib import Path
+
+from ..common import (REPO, Report, cbool, clist, cstr, decide, load_findings, run_case_shards, run_impl,
                       standard_proof_part, write_replay, case_hash)
 
 PROP = "C07"
@@ -15,7 +18,13 @@ DEFECTS = ["D15", "D16", "D17", "D18"]
 # ------------------------------------------------------------------------------------------ domain generator
 PREDS = {"p": ["a"], "q": ["b"], "r": ["a", "b"], "z": []}
 FUNCS = {"f": ["a"], "g": ["b"], "h": []}
-OBJS = {"a": ["a1", "a2"], "b": ["b1", "b2"]}
+OBJS = {"a": ["a1", "a2"], "b": ["b1", "b2"], "c": ["c1"]}      # c is a strict subtype of a
+SUBTYPES = {"a": ["a", "c"], "b": ["b"], "c": ["c"]}
+
+
+def objs_of(ty):
+    """the objects a parameter / quantifier of type ty ranges over (objects of subtypes included)"""
+    return [o for t in SUBTYPES[ty] for o in OBJS[t]]
 
 
 def _var(ty):
@@ -160,7 +169,7 @@ class GenDomain:
         out = ["(define (domain %s)" % self.name,
                "(:requirements :typing :fluents :conditional-effects :universal-preconditions)" if self.typed else "(:requirements :strips)"]
         if self.typed:
-            out.append("(:types a b - object)")
+            out.append("(:types a b - object c - a)")
         out.append("(:predicates %s)" % " ".join("(%s%s)" % (n, sig(t)) for n, t in PREDS.items()))
         if self.typed:
             out.append("(:functions %s)" % " ".join("(%s%s)" % (n, sig(t)) for n, t in FUNCS.items()))
@@ -171,11 +180,13 @@ class GenDomain:
 
 def gen_problem(rng, dom, name, order=None):
     """objects in a random type order (the order decides whether the D15 'continue' is the last iteration)"""
-    groups = [("a", OBJS["a"]), ("b", OBJS["b"])]
+    groups = [("a", OBJS["a"]), ("b", OBJS["b"]), ("c", OBJS["c"])]
     if order is None:
         order = rng.random() < 0.5
     if order:
         groups.reverse()
+    if rng.random() < 0.3:
+        groups = groups[1:] + groups[:1]
     if dom.typed:
         objs = " ".join("%s - %s" % (" ".join(o), t) for t, o in groups)
     else:
@@ -190,14 +201,18 @@ def gen_problem(rng, dom, name, order=None):
             if rng.random() < 0.85:
                 init.append("(= %s %s)" % (_atom_text(n, args), rng.choice([0, 1, 2, 4, 10])))
                 keys.append(_atom_text(n, args))
-    text = "(define (problem %s) (:domain %s)\n(:objects %s)\n(:init %s)\n(:goal (and (z))))" % (name, dom.name, objs, " ".join(init))
+    goal = ["(z)"]
+    if dom.typed and rng.random() < 0.5:
+        # numeric goals: the leaf of a zero-arity fluent is the domain's own lifted function object
+        goal.append(rng.choice(["(>= (h) 0)", "(<= (f a1) 10)", "(= (h) 1)", "(> (+ (h) (g b1)) 2)"]))
+    text = "(define (problem %s) (:domain %s)\n(:objects %s)\n(:init %s)\n(:goal (and %s)))" % (name, dom.name, objs, " ".join(init), " ".join(goal))
     return text, keys, [o for _, os_ in groups for o in os_]
 
 
 def _tuples(sig):
     out = [[]]
     for t in sig:
-        out = [x + [o] for x in out for o in OBJS[t]]
+        out = [x + [o] for x in out for o in objs_of(t)]
     return out
 
 
@@ -230,19 +245,22 @@ def gen_history(rng, hid, tier, n_ops=None, style=None):
     def mk_op():
         a = rng.randrange(len(main.actions))
         act = main.actions[a]
-        args = [rng.choice(OBJS[t]) for _, t in act.params]
+        args = [rng.choice(objs_of(t)) for _, t in act.params]
         return {"k": "mk_op", "dom": 0, "act": act.name, "ai": a, "args": args,
                 "objs": (rng.randrange(8) if rng.random() < 0.8 else None)}
 
     ops.append(mk_op())
-    weights = {"sim": [("apply", 30), ("applicable", 10), ("mk_op", 10), ("triplet", 10), ("ground", 3), ("copy", 4),
-                       ("serialize", 6), ("typed_serialize", 2), ("state_objects", 2), ("str_op", 4), ("str_action", 5),
-                       ("export", 6), ("parse_problem", 3)],
-               "domains": [("parse_domain", 14), ("new_domain", 10), ("combine", 14), ("export", 16), ("str_action", 6),
-                           ("apply", 10), ("mk_op", 5), ("triplet", 4)],
-               "mixed": [("apply", 20), ("applicable", 6), ("mk_op", 8), ("triplet", 8), ("copy", 3), ("serialize", 5),
-                         ("str_action", 4), ("export", 8), ("parse_domain", 6), ("new_domain", 5), ("combine", 8),
-                         ("parse_problem", 3), ("str_op", 3), ("ground", 2)]}[style]
+    weights = {"sim": [("apply", 30), ("applicable", 10), ("mk_op", 10), ("triplet", 8), ("plan", 6), ("export_traj", 4),
+                       ("ground", 3), ("copy", 4), ("serialize", 6), ("typed_serialize", 2), ("state_objects", 2),
+                       ("state_eq", 2), ("str_op", 4), ("str_action", 5), ("export", 6), ("export_problem", 4),
+                       ("str_domain", 2), ("parse_problem", 3)],
+               "domains": [("parse_domain", 14), ("new_domain", 10), ("combine", 14), ("shallow_copy", 8), ("export", 16),
+                           ("str_domain", 4), ("str_action", 6), ("apply", 10), ("mk_op", 5), ("triplet", 4),
+                           ("export_problem", 3)],
+               "mixed": [("apply", 20), ("applicable", 6), ("mk_op", 8), ("triplet", 6), ("plan", 5), ("export_traj", 3),
+                         ("copy", 3), ("serialize", 5), ("str_action", 4), ("export", 8), ("export_problem", 3),
+                         ("parse_domain", 6), ("new_domain", 5), ("combine", 8), ("shallow_copy", 4),
+                         ("parse_problem", 3), ("str_op", 3), ("ground", 2), ("state_eq", 2)]}[style]
     names = [n for n, w in weights for _ in range(w)]
     while len(ops) < n_ops:
         k = rng.choice(names)
@@ -256,17 +274,29 @@ def gen_history(rng, hid, tier, n_ops=None, style=None):
         elif k == "triplet":
             a = rng.randrange(len(main.actions))
             act = main.actions[a]
-            args = [rng.choice(OBJS[t]) for _, t in act.params]
+            args = [rng.choice(objs_of(t)) for _, t in act.params]
             ops.append({"k": "triplet", "dom": 0, "st": rng.randrange(16), "objs": rng.randrange(16), "ai": a, "args": args,
                         "call": "(%s %s)" % (act.name, " ".join(args)), "allow": rng.random() < 0.25})
+        elif k == "plan":
+            calls = []
+            for _ in range(rng.randint(2, 4)):
+                a = rng.randrange(len(main.actions))
+                act = main.actions[a]
+                args = [rng.choice(objs_of(t)) for _, t in act.params]
+                calls.append({"ai": a, "args": args, "call": "(%s %s)" % (act.name, " ".join(args))})
+            ops.append({"k": "plan", "dom": 0, "objs": rng.randrange(16), "calls": calls, "allow": rng.random() < 0.3})
+        elif k == "export_traj":
+            ops.append({"k": k, "plan": rng.randrange(4)})
+        elif k == "state_eq":
+            ops.append({"k": k, "st": rng.randrange(16), "st2": rng.randrange(16)})
         elif k in ("ground", "str_op"):
             ops.append({"k": k, "op": rng.randrange(8)})
-        elif k in ("copy", "serialize", "typed_serialize", "state_objects"):
+        elif k in ("copy", "serialize", "typed_serialize", "state_objects", "export_problem"):
             ops.append({"k": k, "st": rng.randrange(16)})
         elif k == "str_action":
             a = rng.randrange(len(main.actions))
             ops.append({"k": k, "dom": 0, "act": main.actions[a].name, "ai": a})
-        elif k == "export":
+        elif k in ("export", "str_domain", "shallow_copy"):
             ops.append({"k": k, "dom": rng.randrange(8)})
         elif k == "parse_problem":
             ops.append({"k": k, "src": rng.randrange(len(probs)), "dom": 0})
@@ -297,56 +327,79 @@ def c_shape(act, args, keys):
     return "{| a_pre := %d; a_effs := %s; a_forall := %d |}" % (n_pre, clist(effs), act.n_forall)
 
 
-def c_op(step, job, keys):
-    """the model operation for one executed step"""
+def c_op(step, job, keys, plans=None):
+    """the model operations for one executed step (a list: parse_plan is one trajectory step per action, the
+    trajectory export reads every state of the plan); only the last one is observed"""
+    plans = plans if plans is not None else []
     if step.get("skipped"):
-        return "ONop"
+        return ["ONop"]
     op, res = step["op"], step["res"]
     k = op["k"]
     shape = job["_shape"]
     failed = "raised" in res
     if k == "parse_domain":
         if failed:
-            return "ONop"
+            return ["ONop"]
         d = shape["doms"][op["src"]]
-        return "(OParseDomain %s %d)" % (cbool(d.typed), len(d.actions))
+        return ["(OParseDomain %s %d)" % (cbool(d.typed), len(d.actions))]
     if k == "new_domain":
-        return "ONop" if failed else "ONewDomain"
+        return ["ONop" if failed else "ONewDomain"]
     if k == "combine":
-        return "ONop" if failed else "(OCombine %d)" % (len(job["ma"][op["src"]]) + (2 if op.get("dummy") else 0))
+        n_ma = job["ma_nacts"][op["src"]] if job.get("ma_nacts") else len(job["ma"][op["src"]])
+        return ["ONop" if failed else "(OCombine %d)" % (n_ma + (2 if op.get("dummy") else 0))]
+    if k == "shallow_copy":
+        return ["ONop" if failed else "(OShallowCopy %d)" % op["dom"]]
     if k == "parse_problem":
         if failed:
-            return "ONop"
+            return ["ONop"]
         ks = [keys.setdefault(x, len(keys)) for x in shape["probs"][op["src"]][1]]
-        return "(OParseProblem %d %s)" % (op["dom"], clist(str(x) for x in ks))
+        return ["(OParseProblem %d %s)" % (op["dom"], clist(str(x) for x in ks))]
     if k == "mk_op":
         if failed:
-            return "ONop"
+            return ["ONop"]
         act = shape["doms"][0].actions[op["ai"]]
         objs = "None" if op.get("objs") is None else "(Some %d)" % op["objs"]
-        return "(OMkOp %d %d %s %s)" % (op["dom"], op["ai"], objs, c_shape(act, op["args"], keys))
+        return ["(OMkOp %d %d %s %s)" % (op["dom"], op["ai"], objs, c_shape(act, op["args"], keys))]
     if k == "ground":
-        return "ONop" if failed else "(OGround %d)" % op["op"]
+        return ["ONop" if failed else "(OGround %d)" % op["op"]]
     if k == "applicable":
-        return "ONop" if failed else "(OApplicable %d %d)" % (op["op"], op["st"])
+        return ["ONop" if failed else "(OApplicable %d %d)" % (op["op"], op["st"])]
     if k == "apply":
         if failed and res["raised"] != "ValueError":
-            return "ONop"
-        return "(OApply %d %d %s %s)" % (op["op"], op["st"], cbool(op.get("skip")), cbool(failed))
+            return ["ONop"]
+        return ["(OApply %d %d %s %s)" % (op["op"], op["st"], cbool(op.get("skip")), cbool(failed))]
     if k == "copy":
-        return "ONop" if failed else "(OCopy %d)" % op["st"]
-    if k in ("serialize", "typed_serialize", "state_objects"):
-        return "(OReadState %d)" % op["st"]
-    if k in ("export", "str_action"):
-        return "(OReadDomain %d)" % op["dom"]
+        return ["ONop" if failed else "(OCopy %d)" % op["st"]]
+    if k in ("serialize", "typed_serialize", "state_objects", "export_problem"):
+        return ["(OReadState %d)" % op["st"]]
+    if k == "state_eq":
+        return ["(OReadState %d)" % op["st"], "(OReadState %d)" % op["st2"]]
+    if k in ("export", "str_action", "str_domain"):
+        return ["(OReadDomain %d)" % op["dom"]]
     if k == "str_op":
-        return "(OReadOp %d)" % op["op"]
+        return ["(OReadOp %d)" % op["op"]]
     if k == "triplet":
         if failed:
-            return "ONop"
+            return ["ONop"]
         act = shape["doms"][0].actions[op["ai"]]
-        return "(OTriplet %d %d %d %d %s %s)" % (op["dom"], op["ai"], op["st"], op["objs"],
-                                                  c_shape(act, op["args"], keys), cbool(res.get("refused")))
+        return ["(OTriplet %d %d %d %d %s %s)" % (op["dom"], op["ai"], op["st"], op["objs"],
+                                                   c_shape(act, op["args"], keys), cbool(res.get("refused")))]
+    if k == "plan":
+        if failed:
+            return ["ONop"]
+        out, src = [], op["objs"]
+        for i, (c, refused) in enumerate(zip(op["calls"], res["refused"])):
+            act = shape["doms"][0].actions[c["ai"]]
+            out.append("(OTriplet %d %d %d %d %s %s)" % (op["dom"], c["ai"], src, op["objs"],
+                                                          c_shape(act, c["args"], keys), cbool(refused)))
+            src = res["base_s"] + i
+        plans.append((op["objs"], res["base_s"], res["n"]))
+        return out
+    if k == "export_traj":
+        if failed:
+            return ["ONop"]
+        pj, base, n = plans[op["plan"]]
+        return ["(OReadState %d)" % pj] + ["(OReadState %d)" % (base + i) for i in range(n)]
     raise ValueError(k)
 
 
@@ -355,16 +408,19 @@ def c_cfg(cfg):
 
 
 def history_case(job, res, cfg):
-    keys = {}
+    keys, plans = {}, []
     steps = []
     for st in res["steps"]:
         changed = st.get("changed", [])
         sharing = st.get("sharing")
         if sharing is None:       # skipped step: the sharing graph is that of the previous step
             sharing = prev_sharing(res["steps"], st)
-        steps.append("{| so_op := %s; so_changed := %s; so_sharing := %s |}" % (
-            c_op(st, job, keys), clist(c_owner(n) for n in changed),
-            clist("(%s, %s)" % (c_owner(a), c_owner(b)) for a, b, _ in sharing)))
+        mops = c_op(st, job, keys, plans)
+        for j, mop in enumerate(mops):
+            last = j == len(mops) - 1
+            steps.append("{| so_op := %s; so_observed := %s; so_changed := %s; so_sharing := %s |}" % (
+                mop, cbool(last), clist(c_owner(n) for n in changed) if last else "[]",
+                clist("(%s, %s)" % (c_owner(a), c_owner(b)) for a, b, _ in sharing) if last else "[]"))
     repeat_ok = not res["repeat_mismatch"] and not res["repeat_changed"] and not res["module_leak"]
     return "{| c_cfg := %s; c_steps := %s; c_repeat_ok := %s; c_thread := None |}" % (
         c_cfg(cfg), clist(steps), cbool(repeat_ok))
@@ -381,9 +437,50 @@ def prev_sharing(steps, st):
 
 
 def thread_case(res, cfg):
+    """real threads: only the verdict of the differential run crosses"""
     ok = (res.get("n_diffs") == 0 and res.get("n_foreign") == 0 and res.get("domain_changed_rounds") == 0
           and not res.get("module_leak"))
-    return "{| c_cfg := %s; c_steps := []; c_repeat_ok := true; c_thread := Some %s |}" % (c_cfg(cfg), cbool(ok))
+    return ("{| c_cfg := %s; c_steps := []; c_repeat_ok := true; c_thread := Some {| t_ok := %s; t_prefix := []; "
+            "t_threads := []; t_sched := [] |} |}" % (c_cfg(cfg), cbool(ok)))
+
+
+def c_cell(name):
+    if name == "T":
+        return "(ODom 0, 0)"
+    if name == "X":
+        return "(ODom 0, 1)"
+    return "(ODom 0, %d)" % (2 + int(name[1:]))
+
+
+def sched_ok_py(res):
+    return (res.get("n_diffs") == 0 and res.get("domain_changed_runs") == 0 and not res.get("module_leak")
+            and not res.get("errors"))
+
+
+def sched_case(job, res, cfg):
+    """deterministic scheduler: per call of every thread the shared cells read / written (union over all schedules),
+    one recorded schedule, and the verdict of the differential runs"""
+    main = job["_shape"]["doms"][0]
+    threads = []
+    for t, steps in enumerate(res["ref"]):
+        keys, plans, out = {}, [], []
+        for i, st in enumerate(steps):
+            mops = c_op(st, job, keys, plans)
+            assert len(mops) == 1, "composite calls are not generated for scheduled threads"
+            f = res["foot"][t][i]
+            out.append("{| ts_op := %s; ts_reads := %s; ts_writes := %s |}" % (
+                mops[0], clist(c_cell(c) for c in f["r"]), clist(c_cell(c) for c in f["w"])))
+        threads.append(clist(out))
+    sample, last = [], None
+    for t, kind, cell in res.get("sample", []):
+        ev = "(%d, %s %s)" % (t, "Write" if kind == "W" else "Read", c_cell(cell))
+        if ev != last:
+            sample.append(ev)
+            last = ev
+    prefix = "[OParseDomain %s %d]" % (cbool(main.typed), len(main.actions))
+    return ("{| c_cfg := %s; c_steps := []; c_repeat_ok := true; c_thread := Some {| t_ok := %s; t_prefix := %s; "
+            "t_threads := %s; t_sched := %s |} |}" % (c_cfg(cfg), cbool(sched_ok_py(res)), prefix, clist(threads),
+                                                      clist(sample[:150])))
 
 
 # ------------------------------------------------------------------------------------------ thread jobs
@@ -401,7 +498,7 @@ def gen_thread_job(rng, tid, tier):
             r = rng.random()
             a = rng.randrange(len(main.actions))
             act = main.actions[a]
-            args = [rng.choice(OBJS[ty]) for _, ty in act.params]
+            args = [rng.choice(objs_of(ty)) for _, ty in act.params]
             if r < 0.25 or len(ops) == 1:
                 ops.append({"k": "mk_op", "dom": 0, "act": act.name, "ai": a, "args": args, "objs": 0})
             elif r < 0.6:
@@ -421,6 +518,54 @@ def gen_thread_job(rng, tid, tier):
         threads.append(ops)
     return {"op": "c07.threads", "id": tid, "doms": [main.text()], "probs": [p[0] for p in probs], "ma": [],
             "threads": threads, "rounds": 3 if tier == "quick" else 8}
+
+
+def gen_sched_job(rng, sid, tier, n_threads=None):
+    """short histories for the deterministic scheduler: every thread parses its own problem, builds its own
+    operators on the SHARED domain and mixes transitions with readers of the shared schema"""
+    main = GenDomain(rng, "d0", typed=True, n_actions=rng.randint(1, 2))
+    while not any(a.n_forall for a in main.actions):
+        main = GenDomain(rng, "d0", typed=True, n_actions=rng.randint(1, 2))
+    n = n_threads or (2 if tier == "quick" or rng.random() < 0.6 else 3)
+    probs = [gen_problem(rng, main, "pr%d" % j) for j in range(n)]
+    fa = [i for i, a in enumerate(main.actions) if a.n_forall]
+    threads = []
+    for t in range(n):
+        def call(prefer_forall):
+            a = rng.choice(fa) if prefer_forall else rng.randrange(len(main.actions))
+            act = main.actions[a]
+            return a, act, [rng.choice(objs_of(ty)) for _, ty in act.params]
+        a, act, args = call(True)
+        ops = [{"k": "parse_problem", "src": t, "dom": 0},
+               {"k": "mk_op", "dom": 0, "act": act.name, "ai": a, "args": args, "objs": 0}]
+        for _ in range(rng.randint(2, 4) if tier == "quick" else rng.randint(3, 6)):
+            r = rng.random()
+            a, act, args = call(rng.random() < 0.6)
+            if r < 0.35:
+                ops.append({"k": "apply", "op": rng.randrange(4), "st": rng.randrange(8), "allow": rng.random() < 0.8,
+                            "skip": rng.random() < 0.2})
+            elif r < 0.45:
+                ops.append({"k": "mk_op", "dom": 0, "act": act.name, "ai": a, "args": args, "objs": 0})
+            elif r < 0.55:
+                ops.append({"k": "triplet", "dom": 0, "st": rng.randrange(8), "objs": 0, "ai": a, "args": args,
+                            "call": "(%s %s)" % (act.name, " ".join(args)), "allow": rng.random() < 0.5})
+            elif r < 0.7:
+                ops.append({"k": "str_action", "dom": 0, "act": act.name, "ai": a})
+            elif r < 0.8:
+                ops.append({"k": "export", "dom": 0})
+            elif r < 0.86:
+                ops.append({"k": "str_op", "op": rng.randrange(4)})
+            elif r < 0.92:
+                ops.append({"k": "applicable", "op": rng.randrange(4), "st": rng.randrange(8)})
+            elif r < 0.96:
+                ops.append({"k": "str_domain", "dom": 0})
+            else:
+                ops.append({"k": "export_problem", "st": 0})
+        threads.append(ops)
+    return {"op": "c07.sched", "id": sid, "doms": [main.text()], "probs": [p[0] for p in probs], "ma": [],
+            "threads": threads, "random": 8 if tier == "quick" else 40, "seed": rng.randrange(10 ** 6),
+            "max_points": 150 if tier == "quick" else (400 if n == 2 else 200),
+            "_shape": {"doms": [main], "probs": probs}}
 
 
 # ------------------------------------------------------------------------------------------ shrinking
@@ -455,6 +600,91 @@ def shrink(job, still_bad, budget=40):
             ops = cand
         i -= 1
     return dict(job, ops=ops)
+
+
+# ------------------------------------------------------------------------------------------ shipped fixtures
+class FxAction:
+    """shape of a shipped action as far as the verdict needs it: the footprint model's predictions of changed values
+    and of the sharing graph do not depend on the numbers of leaves / numeric effects (they only size the operator's
+    private region), so the default shape is used"""
+    pre_leaves, groups, params, n_forall = [], [], [], 0
+
+    def __init__(self, name):
+        self.name = name
+
+    def ground_key(self, f, args):
+        return ""
+
+
+class FxDomain:
+    def __init__(self, text):
+        self.typed = "(:types" in text.lower()
+        self.actions = [FxAction(n) for n in re.findall(r"\(\s*:action\s+([^\s()]+)", text.lower())]
+
+
+FIXTURES = [("elevators_domain.pddl", "elevators_p03.pddl", "elevators_p03_plan.solution"),
+            ("depot_numeric.pddl", "pfile2.pddl", "depot_numeric.solution"),
+            ("depot_numeric.pddl", "pfile2.pddl", "depot_numeric_faulty.solution"),
+            ("domain_spider.pddl", "pfile01_spider.pddl", "pfile01_spider.solution"),
+            ("minecraft_domain.pddl", "minecraft_problem.pddl", "minecraft_pfile0.solution"),
+            ("domain_miconic.pddl", "miconic_problem.pddl", "miconic_solution.solution")]
+MA_FIXTURES = ["blocks_ma_problem", "multi_agent_problem"]
+
+
+def fixture_jobs(rng, tier):
+    """histories over the repository's own domains, problems and plans (tests/exporters_tests) and agent domains
+    (tests/multi_agent_tests): parse, the shipped plan through parse_plan (strict and lenient), trajectory / domain /
+    problem export, re-application of the plan's first operators to earlier and later states, combine"""
+    base = Path(REPO) / "tests"
+    jobs = []
+    ma, ma_nacts = [], []
+    for d in MA_FIXTURES:
+        texts = [f.read_text() for f in sorted((base / "multi_agent_tests" / d).glob("domain-*.pddl"))]
+        if texts:
+            ma.append(texts)
+            ma_nacts.append(len({n for t in texts for n in re.findall(r"\(\s*:action\s+([^\s()]+)", t.lower())}))
+    for fi, (df, pf, sf) in enumerate(FIXTURES):
+        try:
+            dtext, ptext = (base / "exporters_tests" / df).read_text(), (base / "exporters_tests" / pf).read_text()
+            lines = [l.strip().lower() for l in (base / "exporters_tests" / sf).read_text().splitlines() if l.strip().startswith("(")]
+        except OSError:
+            continue
+        dom = FxDomain(dtext)
+        names = [a.name for a in dom.actions]
+        calls = []
+        for l in lines:
+            toks = l.replace("(", " ").replace(")", " ").split()
+            if toks and toks[0] in names:
+                calls.append({"ai": names.index(toks[0]), "args": toks[1:], "call": "(%s)" % " ".join(toks)})
+        if not calls:
+            continue
+        k = min(len(calls), 6 if tier == "quick" else 30)
+        start = 0 if tier == "quick" or len(calls) <= k else rng.randrange(0, 2)
+        plan = calls[:k]
+        ops = [{"k": "parse_domain", "src": 0}, {"k": "parse_problem", "src": 0, "dom": 0},
+               {"k": "plan", "dom": 0, "objs": 0, "calls": plan, "allow": False},
+               {"k": "export_traj", "plan": 0}, {"k": "export", "dom": 0}, {"k": "export_problem", "st": 0},
+               {"k": "str_domain", "dom": 0}]
+        # the plan's first operators again, on the initial state and on later states (also out of order)
+        for j in range(min(3, k)):
+            c = plan[j]
+            ops.append({"k": "mk_op", "dom": 0, "act": names[c["ai"]], "ai": c["ai"], "args": c["args"], "objs": 0})
+            ops.append({"k": "apply", "op": k + j, "st": j, "allow": False, "skip": False})
+            ops.append({"k": "apply", "op": j, "st": rng.randrange(k + 1), "allow": True, "skip": rng.random() < 0.3})
+            ops.append({"k": "triplet", "dom": 0, "st": rng.randrange(k + 1), "objs": 0, "ai": c["ai"], "args": c["args"],
+                        "call": c["call"], "allow": False})
+        ops += [{"k": "plan", "dom": 0, "objs": 0, "calls": list(reversed(plan))[:4], "allow": False},
+                {"k": "plan", "dom": 0, "objs": 0, "calls": plan[:4], "allow": True},
+                {"k": "export_traj", "plan": 1}, {"k": "state_eq", "st": 1, "st2": k + 1},
+                {"k": "serialize", "st": 2}, {"k": "str_action", "dom": 0, "act": names[plan[0]["ai"]], "ai": plan[0]["ai"]},
+                {"k": "str_op", "op": 0}, {"k": "shallow_copy", "dom": 0}]
+        if ma:
+            ops += [{"k": "combine", "src": fi % len(ma), "dummy": fi % 2 == 1}, {"k": "new_domain"}, {"k": "export", "dom": 2}]
+        ops += [{"k": "parse_domain", "src": 0}, {"k": "export", "dom": 0}, {"k": "export_traj", "plan": 0}]
+        jobs.append({"op": "c07.history", "id": "fx%d" % fi, "doms": [dtext], "probs": [ptext], "ma": ma, "ma_nacts": ma_nacts,
+                     "ops": ops, "style": "fixture", "fixture": [df, pf, sf],
+                     "_shape": {"doms": [dom], "probs": [(ptext, [], [])]}})
+    return jobs
 
 
 # ------------------------------------------------------------------------------------------ the check
@@ -503,7 +733,10 @@ def run(args):
             j["_shape"] = None
         # a replay re-executes the history on the current tree and applies the oracle directly
         res = run_impl([public(j) for j in jobs], nproc=1)
-        bad = [r for r in res if ("steps" in r and dirty(r)) or ("n_diffs" in r and (r["n_diffs"] or r["n_foreign"] or r["domain_changed_rounds"]))]
+        bad = [r for r in res if ("steps" in r and dirty(r))
+               or ("n_runs" in r and (r["n_diffs"] or r["n_shared_writes"] or r["domain_changed_runs"] or r["module_leak"]))
+               or ("n_foreign" in r and (r["n_diffs"] or r["n_foreign"] or r["domain_changed_rounds"]))
+               or "raised" in r]
         rep.coverage.update({"evaluations": len(jobs), "distinct_nontrivial": len(jobs), "samples": [public(jobs[0])],
                              "rule": "replay of one recorded history; oracle only (digests, sharing, repeats)",
                              "replay_result": res})
@@ -520,18 +753,21 @@ def run(args):
 
     n_hist = 220 if args.tier == "quick" else 1800
     n_thr = 10 if args.tier == "quick" else 60
-    jobs = witness_jobs()
+    jobs = witness_jobs() + fixture_jobs(rng, args.tier)
     for i in range(n_hist):
         jobs.append(gen_history(rng, i, args.tier))
     hashseeds = [args.seed % 1000] if args.tier == "quick" else [args.seed % 1000, 1 + args.seed % 1000, 2 + args.seed % 1000]
     results = [None] * len(jobs)
     for k, hs in enumerate(hashseeds):
-        idx = [i for i in range(len(jobs)) if i % len(hashseeds) == k or jobs[i].get("witness")]
+        idx = [i for i in range(len(jobs)) if i % len(hashseeds) == k or jobs[i].get("witness") or jobs[i].get("fixture")]
         out = run_impl([public(jobs[i]) for i in idx], hashseed=hs)
         for i, r in zip(idx, out):
             results[i] = r
     tjobs = [gen_thread_job(rng, i, args.tier) for i in range(n_thr)]
     tres = run_impl(tjobs, hashseed=hashseeds[0], nproc=min(8, len(tjobs)))
+    n_sched = 4 if args.tier == "quick" else 16
+    sjobs = [gen_sched_job(rng, i, args.tier) for i in range(n_sched)]
+    sres = run_impl([public(j) for j in sjobs], hashseed=hashseeds[0], nproc=min(16, len(sjobs)))
 
     cases, kinds, nsteps, raised, refused = [], {}, {}, 0, 0
     for job, res in zip(jobs, results):
@@ -566,6 +802,15 @@ def run(args):
             continue
         cases.append({"lit": thread_case(res, cfg), "input": {"job": job, "observed": res}, "nontrivial": True,
                       "witness_of": None, "klass": None})
+    for job, res in zip(sjobs, sres):
+        if "n_runs" not in res:
+            p = write_replay(PROP, "sched_driver_failed_%s" % job["id"], {"kind": "correspondence", "why": "scheduler driver failed", "input": {"job": public(job)}, "result": res})
+            rep.violation(p, False)
+            continue
+        cases.append({"lit": sched_case(job, res, cfg),
+                      "input": {"job": public(job), "observed": {k: v for k, v in res.items() if k not in ("ref", "foot", "sample")},
+                                "footprints": res["foot"]},
+                      "nontrivial": res["switches"] > 0, "witness_of": None, "klass": None})
     verdicts, info = run_case_shards(PROP, "Corr.C07", [c["lit"] for c in cases], shard_size=40, max_bytes=100_000, run_fn="Verif.Corr.C07.run",
                                      header_extra="From Verif Require Import Model.Store.\n")
     # shrink failing histories (oracle-dirty outside the known class) before they are written as replays
@@ -586,10 +831,17 @@ def run(args):
     cov["input_distribution"] = {"histories": len(jobs), "thread_jobs": len(tjobs), "ops_by_kind": kinds,
                                  "history_length_executed": {str(k): v for k, v in sorted(nsteps.items())},
                                  "calls_raised": raised, "steps_refused": refused,
-                                 "styles": {s: sum(1 for j in jobs if j.get("style") == s) for s in ("sim", "domains", "mixed", "witness")},
+                                 "styles": {s: sum(1 for j in jobs if j.get("style") == s) for s in ("sim", "domains", "mixed", "witness", "fixture")},
                                  "thread_counts": {str(n): sum(1 for j in tjobs if len(j["threads"]) == n) for n in (2, 3, 4)},
                                  "thread_rounds": sum(j["rounds"] for j in tjobs),
                                  "thread_steps": sum(sum(r.get("steps", [])) for r in tres if isinstance(r, dict)),
+                                 "sched_jobs": len(sjobs),
+                                 "sched_threads": {str(n): sum(1 for j in sjobs if len(j["threads"]) == n) for n in (2, 3)},
+                                 "sched_runs": sum(r.get("n_runs", 0) for r in sres),
+                                 "sched_yield_points_hit": sum(r.get("hits", 0) for r in sres),
+                                 "sched_context_switches": sum(r.get("switches", 0) for r in sres),
+                                 "sched_one_preemption_space_complete": sum(1 for r in sres if r.get("one_preemption_exhaustive")),
+                                 "sched_shared_writes": sum(r.get("n_shared_writes", 0) for r in sres),
                                  "python_hash_seeds": hashseeds}
     cov["exhaustive"] = False
     cov["rule"] = ("histories of 3-12 API calls (parse domain/problem, Operator, ground, is_applicable, apply x 4 flag combinations, "
